@@ -42,14 +42,119 @@ def check_records(ctx, recs, classify=None, need_reference=True):
             ctx.violation(dict(semcheck.base_replay(r, case, ex), kind="wrong-result", signature=sig, tags=case["tags"], reason=reason, reference=ex.get("reference")), True)
 
 
+def part_sizes(case, stack, ext):
+    """step of every level of a shape stack, top level first (uniform_shape: the size; nway_shape(n): (extent - 1) // n + 1)"""
+    out = []
+    for pstr in stack:
+        arg = pstr[pstr.index("(") + 1:-1]
+        val = int(arg) if arg.isdigit() else case["env"][arg]
+        if pstr.startswith("uniform_shape"):
+            out.append(val)
+        elif pstr.startswith("nway_shape"):
+            out.append((ext - 1) // val + 1)
+        else:
+            return None
+    return out
+
+
+def lean_part_request(case, rec, ex):
+    """the partitioned Einsum for the Lean model compiler (Props/C02Model): original Einsum + inputs, the list of rank
+    splits the stacks stand for, and the loop order over the expanded ranks (the mapping's, else the implementation's)"""
+    import c01, pool
+    e = case["eins"][0]
+    d = rec["yaml"]
+    base = {"out_name": e["out"], "out_ranks": list(case["decl"][e["out"]]), "terms": c01.lean_terms(case, ex), "tree": rec["tree"]}
+    ranks = []
+    for t in base["terms"]:
+        for x in t["tensors"]:
+            for r in x["ranks"]:
+                if r not in ranks:
+                    ranks.append(r)
+    for r in base["out_ranks"]:
+        if r not in ranks:
+            ranks.append(r)
+    base["loop"] = ranks
+    base["exts"] = [case["ext"][r] for r in ranks]
+    splits = []
+    parts = ((d.get("mapping") or {}).get("partitioning") or {}).get(e["out"]) or {}
+    for K, stack in parts.items():
+        if K not in ranks:
+            return None
+        sizes = part_sizes(case, stack, case["ext"][K])
+        if sizes is None or any(s <= 0 for s in sizes):
+            return None
+        n = len(sizes)
+        cur = K
+        for j, sz in enumerate(sizes):
+            lvl = n - j
+            low = (K + "0") if lvl == 1 else "%s%dI" % (K, lvl - 1)
+            splits.append({"K": cur, "K1": K + str(lvl), "K0": low, "size": sz})
+            cur = low
+    lo = ((d.get("mapping") or {}).get("loop-order") or {}).get(e["out"]) or (pool.loop_ranks(d) or {}).get(e["out"])
+    if lo is None:
+        return None
+    base.update(op="nest_part", splits=splits, loop2=list(lo))
+    return base
+
+
+def check_model(ctx, recs):
+    """tie of the composed theorem (C02.model_partitioned) to the real compiler: the model compiler's partitioned nest has
+    the real program's loop skeleton and computes, on the sampled input, what the real program computes; its hypotheses
+    (PartOK) are decided in Lean for every sample"""
+    import c01
+    reqs, metas = [], []
+    for r in recs:
+        if not r["ok"]:
+            continue
+        case = r["case"]
+        if len(case["eins"]) != 1:
+            continue
+        for ex in r["execs"][:1]:
+            if not ex.get("ok"):
+                continue
+            q = lean_part_request(case, r, ex)
+            if q is None:
+                ctx.stat("model_not_applicable"); continue
+            reqs.append(q); metas.append((r, case, ex))
+    for (r, case, ex), a in zip(metas, common.lean_batch(reqs)):
+        if "error" in a:
+            raise common.InternalError("lean: " + a["error"])
+        out = case["eins"][0]["out"]
+        real = c01.pts_set(ex["outputs"].get(out, []))
+        run_, spec_ = c01.pts_set(a["run"]), c01.pts_set(a["spec"])
+        nl = len(a["expected_loops"])
+        skel_ok = [(v, sorted(fs)) for v, fs in a["expected_loops"]] == [(v, sorted(fs)) for v, fs in a.get("actual_loops", [])][:nl]
+        ctx.stat("model_partitioned_samples")
+        if a["hyps_ok"]:
+            ctx.stat("model_hypotheses_hold")
+        ok_h = a["hyps_ok"]
+        ok_thm = (run_ == spec_) or not ok_h
+        ok_model = skel_ok and real == run_
+        ctx.ob(ok_h); ctx.ob(ok_thm); ctx.ob(ok_model)
+        if ok_h and ok_thm and ok_model:
+            continue
+        rep = dict(semcheck.base_replay(r, case, ex), real=real, model_run=run_, model_spec=spec_, hyps_ok=a["hyps_ok"],
+                   skeleton_expected=a["expected_loops"], skeleton_actual=a.get("actual_loops"))
+        if not ok_h:
+            ctx.violation(dict(rep, kind="model-hypotheses", obligation="C02.PartOK decided on the sampled specification and input",
+                               reason="the hypotheses of C02.model_partitioned do not hold for this generated sample (generator or model compiler out of step)"), False)
+        elif not ok_thm:
+            ctx.violation(dict(rep, kind="model-semantics", obligation="C02.model_partitioned", reason="model nest and meaning differ although PartOK holds"), False)
+        else:
+            verdict_ok, reason, sig = semcheck.verdict(case, ex)
+            ctx.violation(dict(rep, kind="model-correspondence", obligation="model compiler of the partitioned nest (C02.model_partitioned) = real compiler: loop skeleton and result",
+                               reason="the emitted partitioned program no longer matches the model nest (%s)" % ("skeleton" if not skel_ok else "result")), not verdict_ok)
+
+
 def run(ctx):
     ctx.rule = ("generated G2 specifications: Einsums of G1 shape (no take) with uniform_shape/nway_shape stacks of 1-3 levels on a random subset of ranks, literal or symbolic sizes 1-8 "
                 "against extents 1-7 (not dividing / exceeding), loop order = any permutation of the level ranks (or level-sorted, or omitted), each executed on 2-3 random inputs under "
                 "several hash seeds and compared with the unpartitioned compile and the dense oracle; plus random tensors for the Lean-vs-minifiber operation differential; "
                 "non-trivial = program containing a split; distinct = distinct text")
-    ctx.trusted = ["Lean kernel; Props/C02 (tensor-level partition algebra only: the composition with the C01 loop-nest theorem over expanded ranks is NOT proved)",
-                   "the fibertree contract of splitUniform/mergeRanks as written in FT/Ops.lean, compared with the minifiber stand-in on random tensors",
-                   "correctness of each partitioned program is decided by execution on sampled inputs (minifiber) against the unpartitioned program and the dense oracle"]
+    ctx.trusted = ["Lean kernel; Props/C02, C02Nest, C02Model, C01Den, C01Ext (model_partitioned: every stack of splits, every loop order over the expanded ranks, every input)",
+                   "the reading of the fibertree API: Nest.run as the meaning of the emitted loops, splitUniform/mergeRanks as written in FT/Ops.lean (compared with the minifiber stand-in on random tensors)",
+                   "model compiler of the partitioned nest = real compiler is sampled: PartOK decided in Lean per sample, loop skeleton compared with the real tree, model result = real program's result on the sampled input",
+                   "the header/footer statements (splitUniform / swizzleRanks / mergeRanks calls) are tied by execution against the unpartitioned program and the dense oracle, and by split_merge_id"]
     k = 1 if ctx.tier == "quick" else 8
     rng = random.Random(ctx.seed * 131 + 2)
     ftdiff.run(ctx, rng, 120 * k, ops=("swizzle", "splitUniform", "mergeAbs", "split_merge"))
@@ -58,6 +163,7 @@ def run(ctx):
                               dict(gen="g2", count=30 * k, modes=["plain"], nexec=n, reference=True, opts={"order": "levelsorted"}),
                               dict(gen="g2", count=20 * k, modes=["plain"], nexec=n, reference=True, opts={"order": "none"})])
     check_records(ctx, recs)
+    check_model(ctx, recs)
 
 
 def replay(ctx, path):
